@@ -35,9 +35,10 @@ const (
 )
 
 var importMap = map[string]string{
-	"sync":    base + "vsync",
-	"time":    base + "vtime",
-	"context": base + "vcontext",
+	"sync":        base + "vsync",
+	"time":        base + "vtime",
+	"context":     base + "vcontext",
+	"sync/atomic": base + "vatomic",
 }
 
 type stats struct {
